@@ -25,13 +25,15 @@ def sh(cmd, **kw):
 
 
 def header(patch):
-    h = {"expect": [], "property": None, "configs": ["default"]}
+    h = {"expect": [], "property": None, "configs": ["default"], "silent": False}
     for line in open(patch):
         if not line.startswith("#"):
             break
         line = line[1:].strip()
         if line.startswith("expect:"):
             h["expect"].append(line[len("expect:"):].strip())
+        elif line.startswith("expect-silent"):
+            h["silent"] = True
         elif line.startswith("property:"):
             h["property"] = line[len("property:"):].strip()
         elif line.startswith("what:"):
@@ -117,7 +119,12 @@ def main(argv):
                     newv = []
                     why = "no evidence: %s %s" % (e, out[-300:])
                 hit = [k for k in newv if any(x in k for x in h["expect"])] if h["expect"] else newv
-                if hit:
+                if h["silent"]:
+                    if newv:
+                        status, why = "MISSED", "FALSE ALARM on a behaviour-preserving change: %s" % newv[:3]
+                    else:
+                        status, why = "fired", "silent on a behaviour-preserving change (as required)"
+                elif hit:
                     status, why = "fired", hit[0]
                 elif newv:
                     status, why = "fired-other", "expected %s, got %s" % (h["expect"], newv[:3])
